@@ -318,7 +318,8 @@ func (c *Collection) UpdateXattrs(
 	for xattrKey, xattrVal := range xattrs {
 		xv[xattrKey] = payload{parsed: xattrVal}
 	}
-	return c.writeWithXattrs(key, nil, xv, &cas, &exp, writeXattrOptions{}, opts)
+	expP := ifelse(opts != nil && opts.PreserveExpiry, nil, &exp)
+	return c.writeWithXattrs(key, nil, xv, &cas, expP, writeXattrOptions{}, opts)
 }
 
 func (c *Collection) WriteTombstoneWithXattrs(
